@@ -947,3 +947,9 @@ SELFTEST = [
     ('benign-scale-reorder', 'pyerrors/obs.py', "* len(new_idx) / len(idx) * scalefactor", "* (scalefactor * len(new_idx) / len(idx))", 'BENIGN'),
     ('benign-cobs-rewrite', 'pyerrors/obs.py', "return CObs(self.real - other.real, self.imag - other.imag)", "return CObs(-other.real + self.real, -(other.imag - self.imag))", 'BENIGN'),
 ]
+
+LEVEL_TEXT = ('decides only: (D1) all manual gradients in obs.py equal the sympy derivative of their lambda; (D2) functions differentiated by autograd '
+              'use autograd.numpy only; (D3) the 15 elementary methods apply the function they are named after; (D4) CObs arithmetic formulas per '
+              'dispatch branch; (D5) scatter/gather by configuration number and argument pairing in derived_observable; (D6) the two rescaling '
+              'factors; (D7) value / Jacobian / replica-mean wiring. A proof of these obligations for every input, not of floating point results.')
+TECHNIQUE = 'AST extraction of lambdas/gradients + sympy differentiation and equality; dataflow/role-based structural rules on derived_observable'
